@@ -237,6 +237,18 @@ Proof.
 Qed.
 Print Assumptions subset_json_bracket_examples.
 
+(* the command itself (`biom subset-table -s ids.txt`): the ids file is read line by line, `#`
+   lines skipped, each line stripped and cut at its first TAB.  Every id the format can carry
+   (not empty, no blank at either end, no tab or newline, no leading `#` -- blanks INSIDE an id are
+   fine) is read back exactly, with or without further tab-separated columns after it. *)
+Theorem read_ids_file_ok : forall ls, Forall ids_line_ok ls -> read_ids_file (print_ids_file ls) = map fst ls.
+Proof. exact read_ids_file_ok_proof. Qed.
+Print Assumptions read_ids_file_ok.
+
+Example read_ids_file_nonvacuous :
+  ids_line_ok ([103; 117; 116; 32; 50]%Z, None) /\ ids_line_ok ([103; 117; 116]%Z, Some [35; 32; 120]%Z).
+Proof. unfold ids_line_ok, id_ok, extra_ok; simpl. repeat split; try discriminate; intuition discriminate. Qed.
+
 (* ---- refuted: key lookup by raw text search (known finding F35).  Observation metadata with a
    key named "columns": that occurrence is found first and `"columns": 1` is stitched in. *)
 Theorem parse_key_first_occurrence_refuted :
